@@ -70,6 +70,26 @@ def expect_raise(c: Ctx, name, thunk, exc_type=None, kind='post'):
     raise PathEnd()
 
 
+class LoopSpec:
+    """A loop invariant supplied by the sidecar: see Interp._loop_with_invariant."""
+
+    def __init__(self, init, havoc, step, final):
+        self.init, self.havoc, self.step, self.final = init, havoc, step, final
+
+
+def loop_invariant(it, func, pattern, spec, occurrence=1):
+    """Attach ``spec`` to the ``occurrence``-th ``for`` statement of ``func`` whose source text starts with ``pattern`` (found in the real source on
+    every run)."""
+    import ast as _ast
+    found = sorted((n for n in _ast.walk(func.node) if isinstance(n, _ast.For) and _ast.unparse(n).startswith(pattern)),
+                   key=lambda n: (n.lineno, n.col_offset))
+    if len(found) < occurrence:
+        raise Unsupported(f'loop {pattern!r} (occurrence {occurrence}) not found in {func.qualname}')
+    node = found[occurrence - 1]
+    it.loop_specs[id(node)] = (node, spec)
+    return node
+
+
 def run_until(it, func, pattern, thunk, occurrence=1, stop_at=()):
     """Run ``thunk()`` until execution is about to execute the ``occurrence``-th statement of function ``func`` (a Func) whose source text
     starts with ``pattern`` (intermediate assertion point).  -> the environment of that frame (``env.lookup(name)``), or None when the
